@@ -336,6 +336,9 @@ func (p *ReverseProxy) clusterInvoke(srv *BfeServer, cluster *bfe_cluster.BfeClu
 			retVal := hl.FilterForward(request)
 			switch retVal {
 			case bfe_module.BfeHandlerFinish:
+				// the selected backend has not been counted yet (IncConnNum is below):
+				// forget it, or FinishReq would decrease its connection num
+				request.Trans.Backend = nil
 				// close the connection after response
 				action = closeAfterReply
 				return
